@@ -274,7 +274,15 @@ func (g *gen) dirs(t *[]string, constOnly bool) {
 	}
 }
 
+// tokens that can start neither a named nor a list type
+var notAType = []string{"!", "5", "1.5", "\"x\"", "\"\"\"x\"\"\"", "{", "}", "=", ")", "(", "@", "$a", ":", "|", "&", "...", "]", "-"}
+
 func (g *gen) typeRef(t *[]string, depth int) {
+	if g.r.Chance(1, 60) {
+		// "<not a type>!": the parser has to report, not to index with the invalid type reference
+		*t = append(*t, common.PickOf(g.r, notAType), "!")
+		return
+	}
 	if depth > 0 && g.r.Chance(1, 4) {
 		*t = append(*t, "[")
 		g.typeRef(t, depth-1)
@@ -519,7 +527,80 @@ func (g *gen) sdlDef(t *[]string) {
 	}
 }
 
+// sdlExtDoc: type / interface EXTENSIONS whose fields take arguments, placed after (or before) input object,
+// object, enum, scalar and directive definitions in varying order -- the printer keeps the argument
+// delimiters as state across definitions.
+func (g *gen) sdlExtDoc() []string {
+	var t []string
+	lead := func() {
+		switch g.r.Pick(7) {
+		case 0:
+			t = append(t, "input", g.plainName())
+			g.inputValueDefs(&t, "{", "}")
+		case 1:
+			t = append(t, "extend", "input", g.plainName())
+			g.inputValueDefs(&t, "{", "}")
+		case 2:
+			t = append(t, "enum", g.plainName(), "{", "RED", "GREEN", "}")
+		case 3:
+			t = append(t, "scalar", g.plainName())
+		case 4:
+			t = append(t, "type", g.plainName())
+			g.fieldDefs(&t)
+		case 5:
+			t = append(t, "directive", "@", g.plainName())
+			g.inputValueDefs(&t, "(", ")")
+			t = append(t, "on", "FIELD")
+		default:
+			t = append(t, "union", g.plainName(), "=", g.plainName())
+		}
+	}
+	for i, n := 0, g.r.Pick(4); i < n; i++ {
+		lead()
+	}
+	for i, n := 0, 1+g.r.Pick(2); i < n; i++ {
+		t = append(t, "extend", common.PickOf(g.r, []string{"interface", "interface", "type"}), g.plainName())
+		if g.r.Chance(1, 3) {
+			t = append(t, "implements", g.plainName())
+			if g.r.Chance(1, 2) {
+				t = append(t, "&", g.plainName())
+			}
+		}
+		g.dirs(&t, true)
+		t = append(t, "{")
+		for j, m := 0, 1+g.r.Pick(3); j < m; j++ {
+			g.desc(&t)
+			t = append(t, g.plainName())
+			if !g.r.Chance(1, 4) {
+				t = append(t, "(")
+				for k, a := 0, 1+g.r.Pick(3); k < a; k++ {
+					g.desc(&t)
+					t = append(t, g.plainName(), ":")
+					g.typeRef(&t, 2)
+					if g.r.Chance(1, 3) {
+						t = append(t, "=")
+						g.value(&t, 1, true)
+					}
+					g.dirs(&t, true)
+				}
+				t = append(t, ")")
+			}
+			t = append(t, ":")
+			g.typeRef(&t, 2)
+			g.dirs(&t, true)
+		}
+		t = append(t, "}")
+		if g.r.Chance(1, 3) {
+			lead()
+		}
+	}
+	return t
+}
+
 func (g *gen) sdlDoc() []string {
+	if g.r.Chance(1, 4) {
+		return g.sdlExtDoc()
+	}
 	var t []string
 	for i, n := 0, 1+g.r.Pick(4); i < n; i++ {
 		if g.r.Chance(1, 8) {
@@ -576,7 +657,39 @@ func (g *gen) render(toks []string, style int) []byte {
 
 var mutToks = []string{"{", "}", "(", ")", "[", "]", ":", "!", "@", "$", "...", ".", "=", "|", "&", "-", "#", "\"", "\"\"\"", "\\", "on", "query", "fragment", "1", "1.5", "a", "\x00", ",", "$a", "..", "....", "type", "extend", "\"x\""}
 
+// breakType replaces the token at a type position (the token after a ':' that is followed by a type-ish
+// continuation) by a token that cannot start a type and makes sure a '!' follows; sometimes the input is
+// cut right after the bang.
+func (g *gen) breakType(toks []string) []string {
+	var cands []int
+	for i := 0; i+1 < len(toks); i++ {
+		if toks[i] == ":" {
+			n := toks[i+1]
+			if n == "[" || (len(n) > 0 && (n[0] >= 'A' && n[0] <= 'Z' || n[0] >= 'a' && n[0] <= 'z')) {
+				cands = append(cands, i+1)
+			}
+		}
+	}
+	if len(cands) == 0 {
+		return toks
+	}
+	i := cands[g.r.Pick(len(cands))]
+	out := append([]string(nil), toks[:i]...)
+	out = append(out, common.PickOf(g.r, notAType), "!")
+	if g.r.Chance(1, 4) {
+		return out // truncated right after the bang
+	}
+	rest := toks[i+1:]
+	if len(rest) > 0 && rest[0] == "!" {
+		rest = rest[1:]
+	}
+	return append(out, rest...)
+}
+
 func (g *gen) mutate(toks []string) []string {
+	if g.r.Chance(1, 5) {
+		return g.breakType(toks)
+	}
 	out := append([]string(nil), toks...)
 	for k, n := 0, 1+g.r.Pick(2); k < n && len(out) > 0; k++ {
 		i := g.r.Pick(len(out))
